@@ -62,6 +62,12 @@ let line_of (l : string) : string =
        | M.Err (M.EUnknownLicense (w, o)) -> Printf.sprintf "R unk %d %s" (int_of_nat o) (hex (string_of_str w))
        | M.Err (M.EExpectedId o) -> Printf.sprintf "R eid %d" (int_of_nat o)
        | M.Err _ -> "R other" | M.Panic -> "R PANIC" | M.Fuel -> "R FUEL")
+  | ["Q"; e; a] ->
+      (match M.satisfies t0 (str_of_string (unhex e)) (List.map str_of_string (unlist a)) with
+       | M.Ok _ -> "Q ok"
+       | M.Err (M.EUnknownLicense (w, o)) -> Printf.sprintf "Q unk %d %s" (int_of_nat o) (hex (string_of_str w))
+       | M.Err (M.EExpectedId o) -> Printf.sprintf "Q eid %d" (int_of_nat o)
+       | M.Err _ -> "Q other" | M.Panic -> "Q PANIC" | M.Fuel -> "Q FUEL")
   | ["G"; k; ps] ->
       let j = pairs ps in
       let f = (match k with "L" -> M.gen_licenses_file j | "D" -> M.gen_deprecated_file j | _ -> M.gen_exceptions_file j) in
